@@ -4,7 +4,7 @@
    _get_workdir and _check_stacked_deployments with explicit fuel).  Spec: Binding/Spec.v (flat list of
    bindings, no trie). *)
 From Coq Require Import List Bool NArith.
-From SF Require Import Base.Str Tags.Model Binding.Model Binding.Spec Binding.Proofs Binding.Closed Binding.Corr.
+From SF Require Import Base.Str Tags.Model Binding.Model Binding.Spec Binding.Proofs Binding.Closed Binding.Cycle Binding.Corr.
 Import ListNotations.
 Local Open Scope string_scope. Local Open Scope list_scope.
 
@@ -56,6 +56,28 @@ Theorem C28_cycles_accepted_terminates_partial : forall ds,
   forall d own, In d ds -> exists r, target_workdir ds own d = WOk r.
 Proof. exact accepted_workdir_terminates. Qed.
 
+(* Direct form: a wraps cycle (x comes back to x after m+1 steps, self references = m 0) reachable from a
+   declared deployment d is never accepted; and when every wraps reference names a declared deployment the
+   answer is the definition error naming some deployment (otherwise a KeyError on the undefined name may come
+   first).  Together with C28_cycles_rejected_is_cycle_partial: rejected iff a cycle is reachable. *)
+Theorem C28_cycles_never_accepted : forall ds d j x m,
+  In d ds -> reach ds d j x -> reach ds x (S m) x -> check_stacked ds <> CNoCycle.
+Proof. exact reachable_cycle_not_accepted. Qed.
+Theorem C28_cycles : forall ds d j x m,
+  closed ds -> In d ds -> reach ds d j x -> reach ds x (S m) x -> exists n, check_stacked ds = CCycle n.
+Proof. exact reachable_cycle_rejected. Qed.
+Example C28_cycles_example :
+  let ds := [D "a" None (Some "b"); D "b" None (Some "c"); D "c" (Some "/w") (Some "b")] in
+  reach ds (D "a" None (Some "b")) 1 (D "b" None (Some "c")) /\
+  reach ds (D "b" None (Some "c")) 2 (D "b" None (Some "c")) /\ check_stacked ds = CCycle "b".
+Proof.
+  split; [|split].
+  - eapply reachS; [reflexivity|vm_compute; reflexivity|constructor].
+  - eapply reachS; [reflexivity|vm_compute; reflexivity|].
+    eapply reachS; [reflexivity|vm_compute; reflexivity|constructor].
+  - vm_compute. reflexivity.
+Qed.
+
 (* non-vacuity *)
 Example C28_nearest_example :
   let bs := [B true "/" 0; B true "/main/sub" 1; B false "/main/sub/p" 2; B true "/main//sub/./step" 3;
@@ -83,3 +105,5 @@ Print Assumptions C28_workdir.
 Print Assumptions C28_check_terminates.
 Print Assumptions C28_cycles_rejected_is_cycle_partial.
 Print Assumptions C28_cycles_accepted_terminates_partial.
+Print Assumptions C28_cycles_never_accepted.
+Print Assumptions C28_cycles.
